@@ -71,11 +71,12 @@ Definition map_out {A B} (f : A -> B) (o : outcome A) : outcome B := bind o (fun
 
 Definition mk_heap (p : pheap) : heap := map (map (fun '(o, l) => mkR o l)) p.
 Definition mk_sl (p : psl) : sl := let '(a, o, n, c) := p in mkSl a o n c.
-Definition mk_lref (tbl : list art) (p : hpref) : lref :=
-  let '(i, m, s) := p in (nth i tbl no_art, m, mk_sl s).
-Definition mk_hstep (tbl : list art) (p : hpstep) : hstep :=
+Definition mk_lref (tbl : list art) (sizes : list Z) (p : hpref) : lref :=
+  let '(i, m, s) := p in
+  mkL (nth i tbl no_art) (nth i sizes 0) m (mk_sl s).
+Definition mk_hstep (tbl : list art) (sizes : list Z) (p : hpstep) : hstep :=
   let '(a, code, meas, iss) := p in
-  mkHS a (option_map (map (mk_lref tbl)) code) (map (mk_lref tbl) meas) iss.
+  mkHS a (option_map (map (mk_lref tbl sizes)) code) (map (mk_lref tbl sizes) meas) iss.
 
 Definition heap_eqb (a b : heap) : bool := list_eqb (list_eqb range_eqb) a b.
 
@@ -84,30 +85,34 @@ Definition heap_eqb (a b : heap) : bool := list_eqb (list_eqb range_eqb) a b.
     afterwards; when no slice with fewer than two ranges has spare capacity
     ([nss]) the value-level model of Model/Validators.v (the one the theorems of
     Props/C10.v are about), applied to what the log reads as at that moment,
-    must reproduce the returned issues as well. *)
-Fixpoint check_stages (L : list hstep) (fl : outcome (list ref)) (nss : bool) (h : heap)
+    must reproduce the returned issues as well (checked for the first two
+    stages, i.e. the chain VAP, VFC of validator.All(): evaluating it walks over
+    the artifact content lists and costs as much as all the rest). *)
+Fixpoint check_stages (n : nat) (L : list hstep) (fl : outcome (list ref)) (nss : bool) (h : heap)
          (st : list stage) : bool :=
   match st with
   | [] => true
   | (k, o, post) :: t =>
       let hp := match post with None => h | Some a => mk_heap a end in
       let '(h', out) := match k with O => hvap h L | _ => hvfc h fl L end in
-      let vout := match k with O => vap (val_log h L) | _ => vfc fl (val_log h L) end in
       let pr := match k with O => proj_tn | _ => proj_id end in
       obs_match (list_eqb oissue_eqb) o (map_out (map (proj_issue pr)) out)
       && match out with Ok _ => heap_eqb h' hp | _ => true end
-      && (if nss then obs_match (list_eqb oissue_eqb) o (map_out (map (proj_issue pr)) vout) else true)
-      && check_stages L fl nss hp t
+      && (if nss && (n <? 2)%nat
+          then obs_match (list_eqb oissue_eqb) o
+                 (map_out (map (proj_issue pr)) (match k with O => vap (val_log h L) | _ => vfc fl (val_log h L) end))
+          else true)
+      && check_stages (S n) L fl nss hp t
   end.
 
 Definition check (c : case) : bool :=
   match c with
   | CHeap arts h0 steps files stages o_vni =>
       let tbl := map mk_art arts in
-      let L := map (mk_hstep tbl) steps in
+      let L := map (mk_hstep tbl (map (fun p : part => snd p) arts)) steps in
       let h := mk_heap h0 in
       let fl := match files with Some f => Ok (map (mk_ref tbl) f) | None => Err 1 end in
-      check_stages L fl (no_small_spare L) h stages
+      check_stages 0 L fl (no_small_spare L) h stages
       && list_eqb pair_eqb o_vni (vni (val_log h L))
   | CLog arts steps files o_vap o_vfc o_vni =>
       let tbl := map mk_art arts in
